@@ -66,6 +66,12 @@ func (w *World) setup() {
 		w.n = 16 + c.Choose(17, "nbig")
 		w.proto = JF
 	}
+	wide := w.o.Mode == "wide"
+	if wide {
+		// participant indices beyond 127 (byte arithmetic, small-exponent multiplication): one dealer, small t
+		w.n = []int{128, 129, 130, 131, 160, 200, 253, 254}[c.Choose(8, "nwide")]
+		w.proto = 1 - c.Choose(2, "widefvss")
+	}
 	switch c.Choose(4, "tkind") {
 	case 0:
 		w.t = (w.n - 1) / 2
@@ -75,6 +81,9 @@ func (w *World) setup() {
 		w.t = w.n - 1
 	default:
 		w.t = 1 + c.Choose(w.n-1, "t")
+	}
+	if wide {
+		w.t = 1 + c.Choose(3, "twide")
 	}
 	if w.t < 1 {
 		w.t = 1
